@@ -14,6 +14,11 @@
 
 // Package main implements the goderive binary.
 // This pulls in all the plugins, parses the flags and runs the generators using the derive library.
+//
+// Most plugins switch on the kinds of go/types and know no alias nodes: go/types is asked
+// to let an alias stand for the type it denotes, as it did before it materialised aliases.
+//
+//go:debug gotypesalias=0
 package main
 
 import (
